@@ -54,7 +54,7 @@ def obligations(tier):
     for p in range(9):
         obls.append(CH("multi_selector_operations_p%d" % p, H, "seq_multi", t, mode="E1s", functions=F, stubs=[CLOCK], env={"VERIF_PART": str(p)},
                        bounds="add on selector %d (2 markings), then add/remove/clear/set naming two of 5 selectors and one or two markings, on a dict and on a parsed object" % p))
-    obls.append(CH("object_level_sequences", H, "objseq", t, mode="E1s", functions=F, stubs=[CLOCK],
+    obls.append(CH("object_level_sequences", H, "objseq", t * 2, mode="E1s", functions=F, stubs=[CLOCK],
                    bounds="one granular add (any of 9 selectors) then every sequence of 3 object-level add/remove/clear/set over 3 marking ids"))
     obls.append(CH("ancestry_by_path_components", H, "ancestry", 240 if tier == "quick" else 900, functions=F[6:9] + F[-3:], stubs=[CLOCK],
                    bounds="marked selector s and queried selector t: every pair of strings <= 8 chars; inherited/descendants symbolic"))
